@@ -90,6 +90,7 @@ func (u *Unit) assumeGlobal(f *Term) {
 		f = u.C.Implies(u.caseCond, f)
 		u.C.Rewrite = save
 	}
+	f = u.C.Close(f)
 	if f.IsTrue() || u.assumed[f.id] {
 		return
 	}
@@ -122,6 +123,9 @@ func (u *Unit) addObl(o *Obligation) {
 	o.Unit = u
 	o.NHyps = len(u.assumes)
 	o.Fn = u.Fn.String()
+	if u.BC != nil && u.BC.Variant != "" {
+		o.Fn += "[" + u.BC.Variant + "]"
+	}
 	if o.Expect == "" {
 		o.Expect = "unsat"
 	}
@@ -839,7 +843,7 @@ func (fr *frame) execInstr(st *State, in ssa.Instruction) {
 		case *types.Slice:
 			sv := fr.get(x.X).(*SliceV)
 			fr.safety(st, "index", x.Pos(), "index", c.ULt(i, sv.Len))
-			fr.vals[x] = c.Idx(sv.Base, c.Add(sv.Off, i))
+			fr.vals[x] = c.Idx(sv.Base, c.AddRaw(sv.Off, i))
 		default:
 			unsupported("IndexAddr on %s", x.X.Type())
 		}
@@ -848,7 +852,7 @@ func (fr *frame) execInstr(st *State, in ssa.Instruction) {
 		switch xv := fr.get(x.X).(type) {
 		case *SliceV: // string
 			fr.safety(st, "index", x.Pos(), "index", c.ULt(i, xv.Len))
-			fr.vals[x] = u.readCell(st, "bv8", c.Idx(xv.Base, c.Add(xv.Off, i)))
+			fr.vals[x] = u.readCell(st, "bv8", c.Idx(xv.Base, c.AddRaw(xv.Off, i)))
 		case *ArrayV:
 			fr.safety(st, "index", x.Pos(), "index", c.ULt(i, c.BVu(uint64(xv.T.Len()), 64)))
 			if xv.Zero {
@@ -1042,7 +1046,7 @@ func (fr *frame) sliceOp(st *State, x *ssa.Slice) Val {
 		g = c.And(c.ULe(hi, cp), c.ULe(lo, hi))
 	}
 	fr.safety(st, "slice", x.Pos(), "slice", g)
-	r := &SliceV{Str: str, Base: base, Off: c.Add(off, lo), Len: c.Sub(hi, lo), Cap: c.Sub(mx, lo)}
+	r := &SliceV{Str: str, Base: base, Off: c.AddRaw(off, lo), Len: c.Sub(hi, lo), Cap: c.Sub(mx, lo)}
 	if str {
 		r.Cap = r.Len
 	}
